@@ -214,6 +214,20 @@ func (fs LocalFileSystem) Mkdir(ctx context.Context, name string) error {
 	}
 }
 
+// checkDistinctPaths refuses a COPY or MOVE whose source and destination are
+// the same resource or contain one another: the destination would have to be
+// removed or written while it is being read.
+func checkDistinctPaths(srcPath, dstPath string) error {
+	sep := string(filepath.Separator)
+	if srcPath == dstPath {
+		return NewHTTPError(http.StatusForbidden, fmt.Errorf("webdav: source and destination are the same resource"))
+	}
+	if strings.HasPrefix(dstPath, srcPath+sep) || strings.HasPrefix(srcPath, dstPath+sep) {
+		return NewHTTPError(http.StatusForbidden, fmt.Errorf("webdav: source and destination contain one another"))
+	}
+	return nil
+}
+
 func copyRegularFile(src, dst string, perm os.FileMode) error {
 	srcFile, err := os.Open(src)
 	if err != nil {
@@ -251,6 +265,9 @@ func (fs LocalFileSystem) Copy(ctx context.Context, src, dst string, options *Co
 
 	if _, err := os.Stat(srcPath); err != nil {
 		return false, errFromOS(err)
+	}
+	if err := checkDistinctPaths(srcPath, dstPath); err != nil {
+		return false, err
 	}
 
 	if _, err := os.Stat(dstPath); err != nil {
@@ -310,6 +327,10 @@ func (fs LocalFileSystem) Move(ctx context.Context, src, dst string, options *Mo
 	}
 	dstPath, err := fs.localPath(dst)
 	if err != nil {
+		return false, err
+	}
+
+	if err := checkDistinctPaths(srcPath, dstPath); err != nil {
 		return false, err
 	}
 
